@@ -133,6 +133,7 @@ type Interp struct {
 	dead     bool
 	fatal    interface{}
 	deadlock bool
+	skipYield bool
 	races    []string
 
 	decisions   int
